@@ -169,3 +169,187 @@ func mayWriteFile(p *an.Prog, in ssa.Instruction, name string) bool {
 	}
 	return has(args[1], 0)
 }
+
+// familyOf returns fn together with its private helpers: functions of the same package that fn (or
+// another member) calls statically and that are called from nowhere else, up to the given depth.
+// Extracting a block of a function into such a helper is the commonest behaviour-preserving edit;
+// rules that look for a construct "in function F" look in F's family instead.
+func familyOf(p *an.Prog, fn *ssa.Function, depth int) []*ssa.Function {
+	if fn == nil {
+		return nil
+	}
+	fam := map[*ssa.Function]bool{fn: true}
+	order := []*ssa.Function{fn}
+	for d := 0; d < depth; d++ {
+		grew := false
+		for _, m := range append([]*ssa.Function{}, order...) {
+			for _, g := range an.WithAnon(m) {
+				an.Instrs(g, func(in ssa.Instruction) {
+					cl := an.AsCallAny(in)
+					if cl == nil {
+						return
+					}
+					if _, isGo := in.(*ssa.Go); isGo {
+						return
+					}
+					callee := cl.Common().StaticCallee()
+					if callee == nil || fam[callee] || callee.Blocks == nil || callee.Pkg == nil || fn.Pkg == nil || callee.Pkg != fn.Pkg || callee.Parent() != nil {
+						return
+					}
+					if callee.Object() != nil && callee.Object().Exported() {
+						return
+					}
+					private := true
+					for caller := range p.Callers(callee) {
+						root := caller
+						for root.Parent() != nil {
+							root = root.Parent()
+						}
+						if !fam[root] && root != callee {
+							private = false
+						}
+					}
+					if private {
+						fam[callee] = true
+						order = append(order, callee)
+						grew = true
+					}
+				})
+			}
+		}
+		if !grew {
+			break
+		}
+	}
+	return order
+}
+
+// guardedInFamily: instruction `in` is dominated by an edge satisfying pred - inside its own
+// function, or, when that function is a private helper of the anchor (see familyOf), at every call
+// site of the helper inside the family.
+func guardedInFamily(p *an.Prog, fam []*ssa.Function, in ssa.Instruction, pred func(an.Rel) bool, depth int) bool {
+	if g, _ := an.GuardedBy(in, pred); g {
+		return true
+	}
+	if depth > 2 || len(fam) == 0 {
+		return false
+	}
+	fn := in.Parent()
+	for fn != nil && fn.Parent() != nil {
+		fn = fn.Parent()
+	}
+	if fn == fam[0] {
+		return false
+	}
+	inFam := false
+	for _, f := range fam {
+		if f == fn {
+			inFam = true
+		}
+	}
+	if !inFam {
+		return false
+	}
+	n := 0
+	for _, sites := range p.Callers(fn) {
+		for _, s := range sites {
+			n++
+			si, ok := s.(ssa.Instruction)
+			if !ok || !guardedInFamily(p, fam, si, pred, depth+1) {
+				return false
+			}
+		}
+	}
+	return n > 0
+}
+
+// effectiveCallers lists the callers of fn, looking through private helpers: a caller that is not in
+// `allowed`, is unexported, lives in fn's package and has callers of its own is replaced by its own
+// (effective) callers.  Extracting the body of an allowed caller into a helper therefore does not
+// change the set.
+func effectiveCallers(p *an.Prog, fn *ssa.Function, allowed []string) []string {
+	ok := map[string]bool{}
+	for _, a := range allowed {
+		ok[a] = true
+	}
+	out := map[string]bool{}
+	seen := map[*ssa.Function]bool{}
+	var rec func(f *ssa.Function, d int)
+	rec = func(f *ssa.Function, d int) {
+		for caller := range p.Callers(f) {
+			root := caller
+			for root.Parent() != nil {
+				root = root.Parent()
+			}
+			name := an.FnName(root)
+			if ok[name] || d >= 3 || seen[root] {
+				out[name] = true
+				continue
+			}
+			private := root.Pkg != nil && fn.Pkg != nil && root.Pkg == fn.Pkg && root.Object() != nil && !root.Object().Exported() && len(p.Callers(root)) > 0 && root != fn
+			if !private {
+				out[name] = true
+				continue
+			}
+			seen[root] = true
+			rec(root, d+1)
+		}
+	}
+	rec(fn, 0)
+	var names []string
+	for n := range out {
+		names = append(names, n)
+	}
+	sort.Strings(names)
+	return names
+}
+
+// familyOfShared is familyOf for a group of sibling functions: a helper counts as private when all of
+// its callers are members of some sibling's family (a helper shared by several implementations of one
+// interface method).
+func familyOfShared(p *an.Prog, fn *ssa.Function, siblings []*ssa.Function, depth int) []*ssa.Function {
+	fam := map[*ssa.Function]bool{}
+	for _, s := range siblings {
+		fam[s] = true
+	}
+	order := []*ssa.Function{fn}
+	inOrder := map[*ssa.Function]bool{fn: true}
+	for d := 0; d < depth; d++ {
+		grew := false
+		for _, m := range append([]*ssa.Function{}, order...) {
+			an.Instrs(m, func(in ssa.Instruction) {
+				cl := an.AsCallAny(in)
+				if cl == nil {
+					return
+				}
+				callee := cl.Common().StaticCallee()
+				if callee == nil || inOrder[callee] || callee.Blocks == nil || callee.Pkg == nil || callee.Pkg != fn.Pkg || callee.Parent() != nil {
+					return
+				}
+				if callee.Object() != nil && callee.Object().Exported() {
+					return
+				}
+				private := true
+				for caller := range p.Callers(callee) {
+					root := caller
+					for root.Parent() != nil {
+						root = root.Parent()
+					}
+					if !fam[root] && root != callee {
+						private = false
+					}
+				}
+				if private {
+					fam[callee] = true
+					inOrder[callee] = true
+					order = append(order, callee)
+					grew = true
+				}
+			})
+		}
+		if !grew {
+			break
+		}
+	}
+	return order
+}
